@@ -318,29 +318,37 @@ Qed.
 
 (* a hedged run: Attempts and Hedges +1 with each hedge started, Executions +1 with each attempt that returns,
    whether or not the hedge layer is still waiting for it *)
-Lemma hedge_loop_preserves cfg pos total : forall fuel c k started w, Tr w -> Tr (snd (hedge_loop fuel cfg pos total c k started w)).
+Lemma Tr_hedge_start pos total c k w : Tr w -> Tr (hedge_start pos total c k w).
+Proof.
+  intros H. unfold hedge_start.
+  set (w1 := set_scopes w _ _ _). assert (H1 : Tr w1) by (apply Tr_set_scopes, H).
+  set (w2 := set_copies w1 _). assert (H2 : Tr w2) by (apply Tr_set_copies, H1).
+  match goal with |- context [set_script ?w3 _] => set (w3' := w3) end.
+  assert (H3 : Tr w3').
+  { subst w3'. destruct k as [|k']; [exact H2|].
+    apply (Tr_emit_gen w2); try reflexivity; try exact H2; cbn; lia. }
+  set (w4 := set_script w3' _). assert (H4 : Tr w4) by (apply (Tr_frame w3'); try reflexivity; try (cbn; lia); exact H3).
+  set (w5 := emit w4 KFnStart total _ _). assert (H5 : Tr w5) by (apply Tr_emit; [reflexivity|exact H4]).
+  apply Tr_refresh_bg, Tr_set_hedge_same, H5.
+Qed.
+
+Lemma hedge_loop_preserves cfg pos total : forall fuel c k started w, Tr w -> Tr (snd (fst (hedge_loop fuel cfg pos total c k started w))).
 Proof.
   induction fuel as [|fuel IH]; intros c k started w H; cbn [hedge_loop].
-  - cbn [snd]. apply Tr_set_oof, H.
-  - set (w1 := set_scopes w _ _ _). assert (H1 : Tr w1) by (apply Tr_set_scopes, H).
-    set (w2 := set_copies w1 _). assert (H2 : Tr w2) by (apply Tr_set_copies, H1).
-    match goal with |- context [set_script ?w3 _] => set (w3' := w3) end.
-    assert (H3 : Tr w3').
-    { subst w3'. destruct k as [|k']; [exact H2|].
-      apply (Tr_emit_gen w2); try reflexivity; try exact H2; cbn; lia. }
-    set (w4 := set_script w3' _). assert (H4 : Tr w4) by (apply (Tr_frame w3'); try reflexivity; try (cbn; lia); exact H3).
-    set (w5 := emit w4 KFnStart total _ _). assert (H5 : Tr w5) by (apply Tr_emit; [reflexivity|exact H4]).
-    match goal with |- context [refresh_bg ?x] => set (w6 := refresh_bg x); assert (H6 : Tr w6) by (apply Tr_refresh_bg, Tr_set_hedge_same, H5) end.
+  - cbn [snd fst]. apply Tr_set_oof, H.
+  - pose proof (Tr_hedge_start pos total c k w H) as H6. set (w6 := hedge_start pos total c k w) in *.
     match goal with |- context [advance ?f w6 ?t ?i ?a] => pose proof (Tr_advance f w6 t i a H6) as H7; destruct (advance f w6 t i a) as [ii w7] end.
     cbn [snd] in H7.
     destruct (is_canceled w7 c); [exact H7|].
     destruct (hs_acc (w_hs w7)) as [[idx out]|].
-    + cbn [snd]. apply Tr_refresh_bg, Tr_cancel_others. unfold clear_acc. apply Tr_set_hedge_same, H7.
-    + match goal with |- context [if ?c then Some _ else None] => destruct c end; [apply IH; exact H7|cbn [snd]; apply Tr_set_oof, H7].
+    + cbn [snd fst]. apply Tr_refresh_bg, Tr_cancel_others. unfold clear_acc. apply Tr_set_hedge_same, H7.
+    + match goal with |- context [if ?c then Some _ else None] => destruct c end; [|cbn [snd fst]; apply Tr_set_oof, H7].
+      specialize (IH c (S k) (started ++ [(length (w_copies w), length (w_scopes w))]) w7 H7).
+      destruct (hedge_loop fuel cfg pos total c (S k) _ w7) as [[r8 w8] ts]. exact IH.
 Qed.
 
 Lemma hedge_layer_preserves pos total cfg : preserves (hedge_layer pos total cfg).
-Proof. intros c w H. unfold hedge_layer. apply hedge_loop_preserves. apply Tr_set_hedge_same, H. Qed.
+Proof. intros c w H. unfold hedge_layer. apply (hedge_loop_preserves cfg pos total). apply Tr_set_hedge_same, H. Qed.
 
 Theorem compose_preserves fuel stack : forall pos total, preserves (compose fuel pos stack total).
 Proof.
